@@ -317,7 +317,10 @@ def run(tier="quick", seed=0, jobs=16):
         elif idx is not None:
             data_.index = list(reversed(range(len(data_))))
         for debug in (False, True):
-            tg = [t for t in DEFAULT_TARGETS] + ["bg_id", "fg_id", "eg_id", "sn_id", "wthh_id", "ehe_id"]
+            if gcols is None:
+                gl = sorted(SUPPORTED_GROUPINGS, key=len, reverse=True)
+                gcols = [n_ for n_ in apirel.function_nodes(e_, None, list(pop_.columns)) if suffix_of(n_, gl) is not None]
+            tg = sorted(set([t for t in DEFAULT_TARGETS] + ["bg_id", "fg_id", "eg_id", "sn_id", "wthh_id", "ehe_id"] + gcols))
             try:
                 res_, _ = apirel.simulate(e_, data_, targets=tg, debug=debug)
             except Exception as ex:  # noqa: BLE001
